@@ -29,8 +29,8 @@ var areas = map[string]map[string]cmd{
 	"entity":  {"replay": entityarea.Replay},
 	"digraph": {"replay": digrapharea.Replay},
 	"dump":    {"child": dumparea.Child, "explore": dumparea.Explore, "roundtrip": dumparea.Roundtrip, "attack": dumparea.Attack},
-	"trav":    {"run": travarea.Run, "pipe": travarea.Pipe, "filters": travarea.Filters, "seq": travarea.Seq},
-	"front":   {"gate": frontarea.Gate, "build": frontarea.Build, "fuzz": frontarea.Fuzz, "faithful": frontarea.Faithful, "shapes": frontarea.Shapes, "createshapes": frontarea.CreateShapes, "literals": frontarea.Literals},
+	"trav":    {"run": travarea.Run, "pipe": travarea.Pipe, "filters": travarea.Filters, "seq": travarea.Seq, "counter": travarea.Counter},
+	"front":   {"gate": frontarea.Gate, "build": frontarea.Build, "fuzz": frontarea.Fuzz, "faithful": frontarea.Faithful, "shapes": frontarea.Shapes, "createshapes": frontarea.CreateShapes, "literals": frontarea.Literals, "rewrite": frontarea.Rewrite},
 	"opt":     {"export": optarea.Export},
 	"reach":   {"replay": reacharea.Replay},
 	"scope":   {"run": scopearea.Scope},
